@@ -168,7 +168,10 @@ func (g *GaussianSampler) read(pol Poly, f func(a, b, c uint64) uint64) {
 			}
 
 			for j, qi := range moduli {
-				coeffs[j][i] = f(coeffs[j][i], (coeffInt*sign)|(qi-coeffInt)*(sign^1), qi)
+				// c = coeffInt mod qi (the bound may exceed qi); neg = -c mod qi with -0 = 0
+				c := coeffInt % qi
+				neg := (qi - c) * ((c | -c) >> 63)
+				coeffs[j][i] = f(coeffs[j][i], (c*sign)|neg*(sign^1), qi)
 			}
 		}
 	}
